@@ -228,4 +228,27 @@ PROPS = {
             rapid("c17", "TestPropClientBoundary", quick=(250, 4), thorough=(5000, 8)),
         ],
     },
+    "C02": {
+        "level": "exploration",
+        "rule": "sessions of LOGIN or AUTHENTICATE PLAIN (arbitrary byte-string credentials), optional ENABLE, then 1..6 client API calls "
+                "drawn from Create(+SpecialUse)/Delete/Rename/Subscribe/Unsubscribe/List(ref, pattern, select+return options, STATUS "
+                "items)/Status/Append(flags, date with zone, payload 0..70000 bytes incl. NUL and 8-bit)/Select+Examine/Unselect/Close/"
+                "Fetch+UIDFetch (every item combination: BODY/BODYSTRUCTURE, ENVELOPE, FLAGS, INTERNALDATE, RFC822.SIZE, UID, body "
+                "sections with part paths, HEADER/TEXT/MIME, HEADER.FIELDS(.NOT) lists, partials with int64 offsets, PEEK, BINARY, "
+                "BINARY.SIZE)/Store (3 ops x silent)/Copy/Move (native and COPY+STORE+EXPUNGE fallback)/Search+UIDSearch (criteria "
+                "trees of depth <=2 over every field, return options incl. SAVE)/Expunge/UIDExpunge incl. '$'/Namespace/Idle, with "
+                "string arguments from every byte class up to the server's 4096-octet buffering bound, against server capability "
+                "sets {rev1, +rev2, +LITERAL+, +MOVE, +UIDPLUS} and ENABLE UTF8=ACCEPT / IMAP4rev2 or none. After each Wait the stub "
+                "session's recorded call must equal the API call: same method(s), byte-identical strings (INBOX folded), number sets "
+                "equal with '*'/'$' preserved, flags case-insensitively, fetch item sets, search criteria in a semantic normal form "
+                "(dates by calendar day, header names case-folded), documented defaults (no return option = ALL; UID FETCH implies UID). "
+                "Non-trivial: session containing an argument that is not plain alphanumeric, or a set / fetch / search / list "
+                "command; distinct by hash of (config, call history).",
+        "assumptions": ["CONDSTORE/SPECIAL-USE/SORT/THREAD/QUOTA/METADATA arguments are outside the feature set the server implements",
+                        "string arguments are at most 4096 octets on the wire (the server refuses longer buffered literals by design)",
+                        "HeaderFields/HeaderFieldsNot are only generated together with the HEADER specifier (API precondition)"],
+        "units": [
+            rapid("c02", "TestPropCommands", quick=(1500, 6), thorough=(30000, 14)),
+        ],
+    },
 }
